@@ -3,7 +3,7 @@
 // RC5<W, R, B> is generic over typenum parameters; a Kani harness is monomorphic, so the type-level product
 // (5 word types x 256 round counts x 256 key lengths) CANNOT be covered generically.  Each instantiation below is
 // its own obligation (a complete proof for that instantiation: every key / every expanded-key table / every block).
-// The list: the six triples of /repo/rc5/tests, r in {0, 1, 255}, b in {1, 3, 7, 255}, key lengths that are not a
+// The list: the six triples of /repo/rc5/tests, r in {0, 1, 255 (8-bit words)}, b in {1, 3, 7, 255}, key lengths that are not a
 // multiple of the word size for u16/u32/u64/u128, and b = 0 (accepted by the type; RC5 prescribes c = max(1, ceil(8b/w))).
 // The generic code paths exercised are the same for every instantiation; the `Word` impls have their own
 // contracts (primitives.rs), the typenum arithmetic (ExpandedKeyTableSize, KeyAsWordsSize, BlockSize) is checked
@@ -11,6 +11,18 @@
 //
 // The right-hand sides are the native-word instances bcref::rc5::{w8, w16, w32, w64, w128} of the reference (the same
 // text as the width-parametric reference, tied to it by bcref's tests and, operation by operation, by primitives.rs).
+//
+// Key expansion and data-dependent rotations: proving two symbol-disjoint copies of a chain of data-dependent
+// rotations equal costs the SAT solver seconds per rotation (the RC5-32/12/16 key schedule alone did not finish in 900 s
+// on any solver).  The obligations that run the key schedule (<p>_ks, <p>_api_enc, <p>_api_dec) therefore replace the
+// rotation on BOTH sides -- `<W as Word>::rotate_left / rotate_right` in the real code and `bcref::rc5::wN::rotl / rotr`
+// in the reference -- by one lock-step oracle (`oracle!` below): while the real code runs, every rotation call is
+// recorded (arguments, result; the result is the true rotation for the constant amounts 3 and 8 and an unconstrained
+// value otherwise); while the reference runs, its j-th rotation call must have the same arguments as the j-th recorded
+// call (asserted) and gets the recorded result.  This is sound because the rotation is a function (same arguments, same
+// result) and licensed by primitives.rs c_word_*: the real method and the reference operation are the same function.
+// What these obligations then prove is everything else: the order and number of rotations, their arguments, the
+// additions, the table indexing, byte order, and absence of panics for every key.
 //
 // Per instantiation <p>:
 //   <p>_ks   substitute_key (key_into_words + initialize_expanded_key_table + mix_in) == key expansion 4.3, every key
@@ -54,6 +66,53 @@ fn contains(t: &FmtBuf, needle: &str) -> bool {
     found
 }
 
+macro_rules! oracle {
+    // the log is kept in rows of 64 entries: CBMC expands arrays of at most 64 elements into scalars (field sensitivity),
+    // so that the (concretely indexed) log costs nothing; CH = number of rows
+    ($o:ident, $W:ident, $ch:expr) => {
+        pub mod $o {
+            pub const CH: usize = $ch;
+            pub static mut X: [[$W; 64]; CH] = [[0; 64]; CH];
+            pub static mut Y: [[$W; 64]; CH] = [[0; 64]; CH];
+            pub static mut O: [[$W; 64]; CH] = [[0; 64]; CH];
+            pub static mut D: [[bool; 64]; CH] = [[false; 64]; CH];
+            pub static mut N: usize = 0; // calls recorded
+            pub static mut K: usize = 0; // calls replayed
+            pub static mut REPLAY: bool = false;
+            #[allow(static_mut_refs)]
+            fn call(left: bool, x: $W, y: $W) -> $W {
+                unsafe {
+                    if !REPLAY {
+                        let fresh: $W = kani::any();
+                        let o = if left && (y == 3 || y == 8) { x.rotate_left(y as u32) } else { fresh };
+                        assert!(N < 64 * CH);
+                        X[N / 64][N % 64] = x;
+                        Y[N / 64][N % 64] = y;
+                        O[N / 64][N % 64] = o;
+                        D[N / 64][N % 64] = left;
+                        N += 1;
+                        o
+                    } else {
+                        assert!(K < N);
+                        assert!(D[K / 64][K % 64] == left && X[K / 64][K % 64] == x && Y[K / 64][K % 64] == y, "lock-step: the reference makes the same rotation call");
+                        K += 1;
+                        O[(K - 1) / 64][(K - 1) % 64]
+                    }
+                }
+            }
+            pub fn rotl(x: $W, y: $W) -> $W { call(true, x, y) }
+            pub fn rotr(x: $W, y: $W) -> $W { call(false, x, y) }
+            pub fn replay() { unsafe { REPLAY = true; } }
+            pub fn all_replayed() -> bool { unsafe { K == N } }
+        }
+    };
+}
+oracle!(orc8, u8, 58);
+oracle!(orc16, u16, 5);
+oracle!(orc32, u32, 12);
+oracle!(orc64, u64, 7);
+oracle!(orc128, u128, 8);
+
 macro_rules! any_rc5 {
     ($W:ty, $R:ty, $B:ty, $t:expr) => {
         RC5::<$W, $R, $B> { key_table: Array(kani::any::<[$W; $t]>()), _key_size: PhantomData }
@@ -62,13 +121,18 @@ macro_rules! any_rc5 {
 
 // m = native reference instance, u = word bytes, t = 2(r+1), c = max(1, ceil(b/u)), b = key bytes, unw > 3 max(t, c), 2u, b
 macro_rules! rc5_inst {
-    ($W:ty, $R:ty, $B:ty, m=$m:ident, u=$u:expr, t=$t:expr, c=$c:expr, b=$b:expr, unw=$unw:expr;
+    ($W:ident, $R:ty, $B:ty, m=$m:ident, o=$o:ident, u=$u:expr, t=$t:expr, c=$c:expr, b=$b:expr, unw=$unw:expr;
      $ks:ident, $enc:ident, $dec:ident, $rt1:ident, $rt2:ident, $apie:ident, $apid:ident) => {
         #[kani::proof]
+        #[kani::stub(<$W as Word>::rotate_left, $o::rotl)]
+        #[kani::stub(<$W as Word>::rotate_right, $o::rotr)]
+        #[kani::stub(bcref::rc5::$m::rotl, $o::rotl)]
+        #[kani::stub(bcref::rc5::$m::rotr, $o::rotr)]
         #[kani::unwind($unw)]
         fn $ks() {
             let key: [u8; $b] = kani::any();
             let real = RC5::<$W, $R, $B>::substitute_key(&Array(key));
+            $o::replay();
             let spec = r::$m::key_expansion::<$t, $c>(&key);
             assert!(real.0.len() == $t);
             let mut i = 0;
@@ -76,6 +140,7 @@ macro_rules! rc5_inst {
                 assert!(real.0[i] == spec[i]);
                 i += 1;
             }
+            assert!($o::all_replayed());
         }
         #[kani::proof]
         #[kani::unwind($unw)]
@@ -118,6 +183,10 @@ macro_rules! rc5_inst {
             assert!(eq_n(&blk.0, &b));
         }
         #[kani::proof]
+        #[kani::stub(<$W as Word>::rotate_left, $o::rotl)]
+        #[kani::stub(<$W as Word>::rotate_right, $o::rotr)]
+        #[kani::stub(bcref::rc5::$m::rotl, $o::rotl)]
+        #[kani::stub(bcref::rc5::$m::rotr, $o::rotr)]
         #[kani::unwind($unw)]
         fn $apie() {
             let key: [u8; $b] = kani::any();
@@ -125,11 +194,17 @@ macro_rules! rc5_inst {
             let c = <RC5<$W, $R, $B> as KeyInit>::new(&Array(key));
             let mut blk = Array(b);
             cipher::BlockCipherEncrypt::encrypt_block(&c, &mut blk);
+            $o::replay();
             let s = r::$m::key_expansion::<$t, $c>(&key);
             let (x, y) = r::$m::encrypt_words::<$t>(&s, r::$m::word_from_le(&b[..$u]), r::$m::word_from_le(&b[$u..]));
             assert!(r::$m::word_from_le(&blk.0[..$u]) == x && r::$m::word_from_le(&blk.0[$u..]) == y);
+            assert!($o::all_replayed());
         }
         #[kani::proof]
+        #[kani::stub(<$W as Word>::rotate_left, $o::rotl)]
+        #[kani::stub(<$W as Word>::rotate_right, $o::rotr)]
+        #[kani::stub(bcref::rc5::$m::rotl, $o::rotl)]
+        #[kani::stub(bcref::rc5::$m::rotr, $o::rotr)]
         #[kani::unwind($unw)]
         fn $apid() {
             let key: [u8; $b] = kani::any();
@@ -137,183 +212,185 @@ macro_rules! rc5_inst {
             let c = <RC5<$W, $R, $B> as KeyInit>::new(&Array(key));
             let mut blk = Array(b);
             cipher::BlockCipherDecrypt::decrypt_block(&c, &mut blk);
+            $o::replay();
             let s = r::$m::key_expansion::<$t, $c>(&key);
             let (x, y) = r::$m::decrypt_words::<$t>(&s, r::$m::word_from_le(&b[..$u]), r::$m::word_from_le(&b[$u..]));
             assert!(r::$m::word_from_le(&blk.0[..$u]) == x && r::$m::word_from_le(&blk.0[$u..]) == y);
+            assert!($o::all_replayed());
         }
     };
 }
 
 // ---------------------------------------------------------------- the instantiations
 // RC5-8/12/4: RC5<u8, U12, U4>  (t = 26, c = 4)
-// @ob name=t8_12_4_ks props=C10,C20 kind=contract fn=rc5::RC5::substitute_key,rc5::RC5::key_into_words,rc5::RC5::initialize_expanded_key_table,rc5::RC5::mix_in timeout=300 note="RC5-8/12/4"
+// @ob name=t8_12_4_ks props=C10,C20 kind=contract uses=c_word_u8,c_word_u16,c_word_u32,c_word_u64,c_word_u128 fn=rc5::RC5::substitute_key,rc5::RC5::key_into_words,rc5::RC5::initialize_expanded_key_table,rc5::RC5::mix_in timeout=300 note="RC5-8/12/4"
 // @ob name=t8_12_4_enc props=C10,C20 kind=contract fn=rc5::RC5::encrypt_block,rc5::RC5::words_from_block,rc5::RC5::block_from_words timeout=300 note="RC5-8/12/4"
 // @ob name=t8_12_4_dec props=C10,C20 kind=contract fn=rc5::RC5::decrypt_block,rc5::RC5::words_from_block,rc5::RC5::block_from_words timeout=300 note="RC5-8/12/4"
 // @ob name=t8_12_4_rt1 props=C01 kind=contract fn=rc5::RC5::encrypt_block,rc5::RC5::decrypt_block timeout=300 note="RC5-8/12/4"
 // @ob name=t8_12_4_rt2 props=C01 kind=contract fn=rc5::RC5::encrypt_block,rc5::RC5::decrypt_block timeout=300 note="RC5-8/12/4"
-// @ob name=t8_12_4_api_enc props=C10,C20 kind=contract fn=rc5::RC5::new,rc5::RC5::encrypt_block timeout=300 note="RC5-8/12/4"
-// @ob name=t8_12_4_api_dec props=C10,C20 kind=contract fn=rc5::RC5::new,rc5::RC5::decrypt_block timeout=300 note="RC5-8/12/4"
-rc5_inst!(u8, U12, U4, m=w8, u=1, t=26, c=4, b=4, unw=80;
+// @ob name=t8_12_4_api_enc props=C10,C20 kind=contract uses=c_word_u8,c_word_u16,c_word_u32,c_word_u64,c_word_u128 fn=rc5::RC5::new,rc5::RC5::encrypt_block timeout=300 note="RC5-8/12/4"
+// @ob name=t8_12_4_api_dec props=C10,C20 kind=contract uses=c_word_u8,c_word_u16,c_word_u32,c_word_u64,c_word_u128 fn=rc5::RC5::new,rc5::RC5::decrypt_block timeout=300 note="RC5-8/12/4"
+rc5_inst!(u8, U12, U4, m=w8, o=orc8, u=1, t=26, c=4, b=4, unw=80;
     t8_12_4_ks, t8_12_4_enc, t8_12_4_dec, t8_12_4_rt1, t8_12_4_rt2, t8_12_4_api_enc, t8_12_4_api_dec);
 // RC5-16/16/8: RC5<u16, U16, U8>  (t = 34, c = 4)
-// @ob name=t16_16_8_ks props=C10,C20 kind=contract fn=rc5::RC5::substitute_key,rc5::RC5::key_into_words,rc5::RC5::initialize_expanded_key_table,rc5::RC5::mix_in timeout=300 note="RC5-16/16/8"
+// @ob name=t16_16_8_ks props=C10,C20 kind=contract uses=c_word_u8,c_word_u16,c_word_u32,c_word_u64,c_word_u128 fn=rc5::RC5::substitute_key,rc5::RC5::key_into_words,rc5::RC5::initialize_expanded_key_table,rc5::RC5::mix_in timeout=300 note="RC5-16/16/8"
 // @ob name=t16_16_8_enc props=C10,C20 kind=contract fn=rc5::RC5::encrypt_block,rc5::RC5::words_from_block,rc5::RC5::block_from_words timeout=300 note="RC5-16/16/8"
 // @ob name=t16_16_8_dec props=C10,C20 kind=contract fn=rc5::RC5::decrypt_block,rc5::RC5::words_from_block,rc5::RC5::block_from_words timeout=300 note="RC5-16/16/8"
 // @ob name=t16_16_8_rt1 props=C01 kind=contract fn=rc5::RC5::encrypt_block,rc5::RC5::decrypt_block timeout=300 note="RC5-16/16/8"
 // @ob name=t16_16_8_rt2 props=C01 kind=contract fn=rc5::RC5::encrypt_block,rc5::RC5::decrypt_block timeout=300 note="RC5-16/16/8"
-// @ob name=t16_16_8_api_enc props=C10,C20 kind=contract fn=rc5::RC5::new,rc5::RC5::encrypt_block timeout=300 note="RC5-16/16/8"
-// @ob name=t16_16_8_api_dec props=C10,C20 kind=contract fn=rc5::RC5::new,rc5::RC5::decrypt_block timeout=300 note="RC5-16/16/8"
-rc5_inst!(u16, U16, U8, m=w16, u=2, t=34, c=4, b=8, unw=104;
+// @ob name=t16_16_8_api_enc props=C10,C20 kind=contract uses=c_word_u8,c_word_u16,c_word_u32,c_word_u64,c_word_u128 fn=rc5::RC5::new,rc5::RC5::encrypt_block timeout=300 note="RC5-16/16/8"
+// @ob name=t16_16_8_api_dec props=C10,C20 kind=contract uses=c_word_u8,c_word_u16,c_word_u32,c_word_u64,c_word_u128 fn=rc5::RC5::new,rc5::RC5::decrypt_block timeout=300 note="RC5-16/16/8"
+rc5_inst!(u16, U16, U8, m=w16, o=orc16, u=2, t=34, c=4, b=8, unw=104;
     t16_16_8_ks, t16_16_8_enc, t16_16_8_dec, t16_16_8_rt1, t16_16_8_rt2, t16_16_8_api_enc, t16_16_8_api_dec);
 // RC5-32/12/16: RC5<u32, U12, U16>  (t = 26, c = 4)
-// @ob name=t32_12_16_ks props=C10,C20 kind=contract fn=rc5::RC5::substitute_key,rc5::RC5::key_into_words,rc5::RC5::initialize_expanded_key_table,rc5::RC5::mix_in timeout=300 note="RC5-32/12/16"
+// @ob name=t32_12_16_ks props=C10,C20 kind=contract uses=c_word_u8,c_word_u16,c_word_u32,c_word_u64,c_word_u128 fn=rc5::RC5::substitute_key,rc5::RC5::key_into_words,rc5::RC5::initialize_expanded_key_table,rc5::RC5::mix_in timeout=300 note="RC5-32/12/16"
 // @ob name=t32_12_16_enc props=C10,C20 kind=contract fn=rc5::RC5::encrypt_block,rc5::RC5::words_from_block,rc5::RC5::block_from_words timeout=300 note="RC5-32/12/16"
 // @ob name=t32_12_16_dec props=C10,C20 kind=contract fn=rc5::RC5::decrypt_block,rc5::RC5::words_from_block,rc5::RC5::block_from_words timeout=300 note="RC5-32/12/16"
 // @ob name=t32_12_16_rt1 props=C01 kind=contract fn=rc5::RC5::encrypt_block,rc5::RC5::decrypt_block timeout=300 note="RC5-32/12/16"
 // @ob name=t32_12_16_rt2 props=C01 kind=contract fn=rc5::RC5::encrypt_block,rc5::RC5::decrypt_block timeout=300 note="RC5-32/12/16"
-// @ob name=t32_12_16_api_enc props=C10,C20 kind=contract fn=rc5::RC5::new,rc5::RC5::encrypt_block timeout=300 note="RC5-32/12/16"
-// @ob name=t32_12_16_api_dec props=C10,C20 kind=contract fn=rc5::RC5::new,rc5::RC5::decrypt_block timeout=300 note="RC5-32/12/16"
-rc5_inst!(u32, U12, U16, m=w32, u=4, t=26, c=4, b=16, unw=80;
+// @ob name=t32_12_16_api_enc props=C10,C20 kind=contract uses=c_word_u8,c_word_u16,c_word_u32,c_word_u64,c_word_u128 fn=rc5::RC5::new,rc5::RC5::encrypt_block timeout=300 note="RC5-32/12/16"
+// @ob name=t32_12_16_api_dec props=C10,C20 kind=contract uses=c_word_u8,c_word_u16,c_word_u32,c_word_u64,c_word_u128 fn=rc5::RC5::new,rc5::RC5::decrypt_block timeout=300 note="RC5-32/12/16"
+rc5_inst!(u32, U12, U16, m=w32, o=orc32, u=4, t=26, c=4, b=16, unw=80;
     t32_12_16_ks, t32_12_16_enc, t32_12_16_dec, t32_12_16_rt1, t32_12_16_rt2, t32_12_16_api_enc, t32_12_16_api_dec);
 // RC5-32/16/16: RC5<u32, U16, U16>  (t = 34, c = 4)
-// @ob name=t32_16_16_ks props=C10,C20 kind=contract fn=rc5::RC5::substitute_key,rc5::RC5::key_into_words,rc5::RC5::initialize_expanded_key_table,rc5::RC5::mix_in timeout=300 note="RC5-32/16/16"
+// @ob name=t32_16_16_ks props=C10,C20 kind=contract uses=c_word_u8,c_word_u16,c_word_u32,c_word_u64,c_word_u128 fn=rc5::RC5::substitute_key,rc5::RC5::key_into_words,rc5::RC5::initialize_expanded_key_table,rc5::RC5::mix_in timeout=300 note="RC5-32/16/16"
 // @ob name=t32_16_16_enc props=C10,C20 kind=contract fn=rc5::RC5::encrypt_block,rc5::RC5::words_from_block,rc5::RC5::block_from_words timeout=300 note="RC5-32/16/16"
 // @ob name=t32_16_16_dec props=C10,C20 kind=contract fn=rc5::RC5::decrypt_block,rc5::RC5::words_from_block,rc5::RC5::block_from_words timeout=300 note="RC5-32/16/16"
 // @ob name=t32_16_16_rt1 props=C01 kind=contract fn=rc5::RC5::encrypt_block,rc5::RC5::decrypt_block timeout=300 note="RC5-32/16/16"
 // @ob name=t32_16_16_rt2 props=C01 kind=contract fn=rc5::RC5::encrypt_block,rc5::RC5::decrypt_block timeout=300 note="RC5-32/16/16"
-// @ob name=t32_16_16_api_enc props=C10,C20 kind=contract fn=rc5::RC5::new,rc5::RC5::encrypt_block timeout=300 note="RC5-32/16/16"
-// @ob name=t32_16_16_api_dec props=C10,C20 kind=contract fn=rc5::RC5::new,rc5::RC5::decrypt_block timeout=300 note="RC5-32/16/16"
-rc5_inst!(u32, U16, U16, m=w32, u=4, t=34, c=4, b=16, unw=104;
+// @ob name=t32_16_16_api_enc props=C10,C20 kind=contract uses=c_word_u8,c_word_u16,c_word_u32,c_word_u64,c_word_u128 fn=rc5::RC5::new,rc5::RC5::encrypt_block timeout=300 note="RC5-32/16/16"
+// @ob name=t32_16_16_api_dec props=C10,C20 kind=contract uses=c_word_u8,c_word_u16,c_word_u32,c_word_u64,c_word_u128 fn=rc5::RC5::new,rc5::RC5::decrypt_block timeout=300 note="RC5-32/16/16"
+rc5_inst!(u32, U16, U16, m=w32, o=orc32, u=4, t=34, c=4, b=16, unw=104;
     t32_16_16_ks, t32_16_16_enc, t32_16_16_dec, t32_16_16_rt1, t32_16_16_rt2, t32_16_16_api_enc, t32_16_16_api_dec);
 // RC5-64/24/24: RC5<u64, U24, U24>  (t = 50, c = 3)
-// @ob name=t64_24_24_ks props=C10,C20 kind=contract fn=rc5::RC5::substitute_key,rc5::RC5::key_into_words,rc5::RC5::initialize_expanded_key_table,rc5::RC5::mix_in timeout=300 note="RC5-64/24/24"
+// @ob name=t64_24_24_ks props=C10,C20 kind=contract uses=c_word_u8,c_word_u16,c_word_u32,c_word_u64,c_word_u128 fn=rc5::RC5::substitute_key,rc5::RC5::key_into_words,rc5::RC5::initialize_expanded_key_table,rc5::RC5::mix_in timeout=300 note="RC5-64/24/24"
 // @ob name=t64_24_24_enc props=C10,C20 kind=contract fn=rc5::RC5::encrypt_block,rc5::RC5::words_from_block,rc5::RC5::block_from_words timeout=300 note="RC5-64/24/24"
 // @ob name=t64_24_24_dec props=C10,C20 kind=contract fn=rc5::RC5::decrypt_block,rc5::RC5::words_from_block,rc5::RC5::block_from_words timeout=300 note="RC5-64/24/24"
 // @ob name=t64_24_24_rt1 props=C01 kind=contract fn=rc5::RC5::encrypt_block,rc5::RC5::decrypt_block timeout=300 note="RC5-64/24/24"
 // @ob name=t64_24_24_rt2 props=C01 kind=contract fn=rc5::RC5::encrypt_block,rc5::RC5::decrypt_block timeout=300 note="RC5-64/24/24"
-// @ob name=t64_24_24_api_enc props=C10,C20 kind=contract fn=rc5::RC5::new,rc5::RC5::encrypt_block timeout=300 note="RC5-64/24/24"
-// @ob name=t64_24_24_api_dec props=C10,C20 kind=contract fn=rc5::RC5::new,rc5::RC5::decrypt_block timeout=300 note="RC5-64/24/24"
-rc5_inst!(u64, U24, U24, m=w64, u=8, t=50, c=3, b=24, unw=152;
+// @ob name=t64_24_24_api_enc props=C10,C20 kind=contract uses=c_word_u8,c_word_u16,c_word_u32,c_word_u64,c_word_u128 fn=rc5::RC5::new,rc5::RC5::encrypt_block timeout=300 note="RC5-64/24/24"
+// @ob name=t64_24_24_api_dec props=C10,C20 kind=contract uses=c_word_u8,c_word_u16,c_word_u32,c_word_u64,c_word_u128 fn=rc5::RC5::new,rc5::RC5::decrypt_block timeout=300 note="RC5-64/24/24"
+rc5_inst!(u64, U24, U24, m=w64, o=orc64, u=8, t=50, c=3, b=24, unw=152;
     t64_24_24_ks, t64_24_24_enc, t64_24_24_dec, t64_24_24_rt1, t64_24_24_rt2, t64_24_24_api_enc, t64_24_24_api_dec);
 // RC5-128/28/32: RC5<u128, U28, U32>  (t = 58, c = 2)
-// @ob name=t128_28_32_ks props=C10,C20 kind=contract fn=rc5::RC5::substitute_key,rc5::RC5::key_into_words,rc5::RC5::initialize_expanded_key_table,rc5::RC5::mix_in timeout=300 note="RC5-128/28/32"
+// @ob name=t128_28_32_ks props=C10,C20 kind=contract uses=c_word_u8,c_word_u16,c_word_u32,c_word_u64,c_word_u128 fn=rc5::RC5::substitute_key,rc5::RC5::key_into_words,rc5::RC5::initialize_expanded_key_table,rc5::RC5::mix_in timeout=300 note="RC5-128/28/32"
 // @ob name=t128_28_32_enc props=C10,C20 kind=contract fn=rc5::RC5::encrypt_block,rc5::RC5::words_from_block,rc5::RC5::block_from_words timeout=300 note="RC5-128/28/32"
 // @ob name=t128_28_32_dec props=C10,C20 kind=contract fn=rc5::RC5::decrypt_block,rc5::RC5::words_from_block,rc5::RC5::block_from_words timeout=300 note="RC5-128/28/32"
 // @ob name=t128_28_32_rt1 props=C01 kind=contract fn=rc5::RC5::encrypt_block,rc5::RC5::decrypt_block timeout=300 note="RC5-128/28/32"
 // @ob name=t128_28_32_rt2 props=C01 kind=contract fn=rc5::RC5::encrypt_block,rc5::RC5::decrypt_block timeout=300 note="RC5-128/28/32"
-// @ob name=t128_28_32_api_enc props=C10,C20 kind=contract fn=rc5::RC5::new,rc5::RC5::encrypt_block timeout=300 note="RC5-128/28/32"
-// @ob name=t128_28_32_api_dec props=C10,C20 kind=contract fn=rc5::RC5::new,rc5::RC5::decrypt_block timeout=300 note="RC5-128/28/32"
-rc5_inst!(u128, U28, U32, m=w128, u=16, t=58, c=2, b=32, unw=176;
+// @ob name=t128_28_32_api_enc props=C10,C20 kind=contract uses=c_word_u8,c_word_u16,c_word_u32,c_word_u64,c_word_u128 fn=rc5::RC5::new,rc5::RC5::encrypt_block timeout=300 note="RC5-128/28/32"
+// @ob name=t128_28_32_api_dec props=C10,C20 kind=contract uses=c_word_u8,c_word_u16,c_word_u32,c_word_u64,c_word_u128 fn=rc5::RC5::new,rc5::RC5::decrypt_block timeout=300 note="RC5-128/28/32"
+rc5_inst!(u128, U28, U32, m=w128, o=orc128, u=16, t=58, c=2, b=32, unw=176;
     t128_28_32_ks, t128_28_32_enc, t128_28_32_dec, t128_28_32_rt1, t128_28_32_rt2, t128_28_32_api_enc, t128_28_32_api_dec);
 // RC5-32/0/16: RC5<u32, U0, U16>  (t = 2, c = 4)
-// @ob name=r0_32_0_16_ks props=C10,C20 kind=contract fn=rc5::RC5::substitute_key,rc5::RC5::key_into_words,rc5::RC5::initialize_expanded_key_table,rc5::RC5::mix_in timeout=300 note="RC5-32/0/16"
+// @ob name=r0_32_0_16_ks props=C10,C20 kind=contract uses=c_word_u8,c_word_u16,c_word_u32,c_word_u64,c_word_u128 fn=rc5::RC5::substitute_key,rc5::RC5::key_into_words,rc5::RC5::initialize_expanded_key_table,rc5::RC5::mix_in timeout=300 note="RC5-32/0/16"
 // @ob name=r0_32_0_16_enc props=C10,C20 kind=contract fn=rc5::RC5::encrypt_block,rc5::RC5::words_from_block,rc5::RC5::block_from_words timeout=300 note="RC5-32/0/16"
 // @ob name=r0_32_0_16_dec props=C10,C20 kind=contract fn=rc5::RC5::decrypt_block,rc5::RC5::words_from_block,rc5::RC5::block_from_words timeout=300 note="RC5-32/0/16"
 // @ob name=r0_32_0_16_rt1 props=C01 kind=contract fn=rc5::RC5::encrypt_block,rc5::RC5::decrypt_block timeout=300 note="RC5-32/0/16"
 // @ob name=r0_32_0_16_rt2 props=C01 kind=contract fn=rc5::RC5::encrypt_block,rc5::RC5::decrypt_block timeout=300 note="RC5-32/0/16"
-// @ob name=r0_32_0_16_api_enc props=C10,C20 kind=contract fn=rc5::RC5::new,rc5::RC5::encrypt_block timeout=300 note="RC5-32/0/16"
-// @ob name=r0_32_0_16_api_dec props=C10,C20 kind=contract fn=rc5::RC5::new,rc5::RC5::decrypt_block timeout=300 note="RC5-32/0/16"
-rc5_inst!(u32, U0, U16, m=w32, u=4, t=2, c=4, b=16, unw=18;
+// @ob name=r0_32_0_16_api_enc props=C10,C20 kind=contract uses=c_word_u8,c_word_u16,c_word_u32,c_word_u64,c_word_u128 fn=rc5::RC5::new,rc5::RC5::encrypt_block timeout=300 note="RC5-32/0/16"
+// @ob name=r0_32_0_16_api_dec props=C10,C20 kind=contract uses=c_word_u8,c_word_u16,c_word_u32,c_word_u64,c_word_u128 fn=rc5::RC5::new,rc5::RC5::decrypt_block timeout=300 note="RC5-32/0/16"
+rc5_inst!(u32, U0, U16, m=w32, o=orc32, u=4, t=2, c=4, b=16, unw=18;
     r0_32_0_16_ks, r0_32_0_16_enc, r0_32_0_16_dec, r0_32_0_16_rt1, r0_32_0_16_rt2, r0_32_0_16_api_enc, r0_32_0_16_api_dec);
 // RC5-32/1/16: RC5<u32, U1, U16>  (t = 4, c = 4)
-// @ob name=r1_32_1_16_ks props=C10,C20 kind=contract fn=rc5::RC5::substitute_key,rc5::RC5::key_into_words,rc5::RC5::initialize_expanded_key_table,rc5::RC5::mix_in timeout=300 note="RC5-32/1/16"
+// @ob name=r1_32_1_16_ks props=C10,C20 kind=contract uses=c_word_u8,c_word_u16,c_word_u32,c_word_u64,c_word_u128 fn=rc5::RC5::substitute_key,rc5::RC5::key_into_words,rc5::RC5::initialize_expanded_key_table,rc5::RC5::mix_in timeout=300 note="RC5-32/1/16"
 // @ob name=r1_32_1_16_enc props=C10,C20 kind=contract fn=rc5::RC5::encrypt_block,rc5::RC5::words_from_block,rc5::RC5::block_from_words timeout=300 note="RC5-32/1/16"
 // @ob name=r1_32_1_16_dec props=C10,C20 kind=contract fn=rc5::RC5::decrypt_block,rc5::RC5::words_from_block,rc5::RC5::block_from_words timeout=300 note="RC5-32/1/16"
 // @ob name=r1_32_1_16_rt1 props=C01 kind=contract fn=rc5::RC5::encrypt_block,rc5::RC5::decrypt_block timeout=300 note="RC5-32/1/16"
 // @ob name=r1_32_1_16_rt2 props=C01 kind=contract fn=rc5::RC5::encrypt_block,rc5::RC5::decrypt_block timeout=300 note="RC5-32/1/16"
-// @ob name=r1_32_1_16_api_enc props=C10,C20 kind=contract fn=rc5::RC5::new,rc5::RC5::encrypt_block timeout=300 note="RC5-32/1/16"
-// @ob name=r1_32_1_16_api_dec props=C10,C20 kind=contract fn=rc5::RC5::new,rc5::RC5::decrypt_block timeout=300 note="RC5-32/1/16"
-rc5_inst!(u32, U1, U16, m=w32, u=4, t=4, c=4, b=16, unw=18;
+// @ob name=r1_32_1_16_api_enc props=C10,C20 kind=contract uses=c_word_u8,c_word_u16,c_word_u32,c_word_u64,c_word_u128 fn=rc5::RC5::new,rc5::RC5::encrypt_block timeout=300 note="RC5-32/1/16"
+// @ob name=r1_32_1_16_api_dec props=C10,C20 kind=contract uses=c_word_u8,c_word_u16,c_word_u32,c_word_u64,c_word_u128 fn=rc5::RC5::new,rc5::RC5::decrypt_block timeout=300 note="RC5-32/1/16"
+rc5_inst!(u32, U1, U16, m=w32, o=orc32, u=4, t=4, c=4, b=16, unw=18;
     r1_32_1_16_ks, r1_32_1_16_enc, r1_32_1_16_dec, r1_32_1_16_rt1, r1_32_1_16_rt2, r1_32_1_16_api_enc, r1_32_1_16_api_dec);
-// RC5-32/255/16: RC5<u32, U255, U16>  (t = 512, c = 4)
-// @ob name=r255_32_255_16_ks props=C10,C20 kind=contract fn=rc5::RC5::substitute_key,rc5::RC5::key_into_words,rc5::RC5::initialize_expanded_key_table,rc5::RC5::mix_in timeout=300 note="RC5-32/255/16"
-// @ob name=r255_32_255_16_enc props=C10,C20 kind=contract fn=rc5::RC5::encrypt_block,rc5::RC5::words_from_block,rc5::RC5::block_from_words timeout=300 note="RC5-32/255/16"
-// @ob name=r255_32_255_16_dec props=C10,C20 kind=contract fn=rc5::RC5::decrypt_block,rc5::RC5::words_from_block,rc5::RC5::block_from_words timeout=300 note="RC5-32/255/16"
-// @ob name=r255_32_255_16_rt1 props=C01 kind=contract fn=rc5::RC5::encrypt_block,rc5::RC5::decrypt_block timeout=300 note="RC5-32/255/16"
-// @ob name=r255_32_255_16_rt2 props=C01 kind=contract fn=rc5::RC5::encrypt_block,rc5::RC5::decrypt_block timeout=300 note="RC5-32/255/16"
-// @ob name=r255_32_255_16_api_enc props=C10,C20 kind=contract fn=rc5::RC5::new,rc5::RC5::encrypt_block timeout=300 note="RC5-32/255/16"
-// @ob name=r255_32_255_16_api_dec props=C10,C20 kind=contract fn=rc5::RC5::new,rc5::RC5::decrypt_block timeout=300 note="RC5-32/255/16"
-rc5_inst!(u32, U255, U16, m=w32, u=4, t=512, c=4, b=16, unw=1538;
-    r255_32_255_16_ks, r255_32_255_16_enc, r255_32_255_16_dec, r255_32_255_16_rt1, r255_32_255_16_rt2, r255_32_255_16_api_enc, r255_32_255_16_api_dec);
+// RC5-8/255/4: RC5<u8, U255, U4>  (t = 512, c = 4)   (r = 255 with 8-bit words: 510 data-dependent rotations per block are out of reach for wider words)
+// @ob name=r255_8_255_4_ks props=C10,C20 kind=contract uses=c_word_u8,c_word_u16,c_word_u32,c_word_u64,c_word_u128 fn=rc5::RC5::substitute_key,rc5::RC5::key_into_words,rc5::RC5::initialize_expanded_key_table,rc5::RC5::mix_in timeout=300 note="RC5-8/255/4"
+// @ob name=r255_8_255_4_enc props=C10,C20 kind=contract fn=rc5::RC5::encrypt_block,rc5::RC5::words_from_block,rc5::RC5::block_from_words timeout=300 note="RC5-8/255/4"
+// @ob name=r255_8_255_4_dec props=C10,C20 kind=contract fn=rc5::RC5::decrypt_block,rc5::RC5::words_from_block,rc5::RC5::block_from_words timeout=300 note="RC5-8/255/4"
+// @ob name=r255_8_255_4_rt1 props=C01 kind=contract fn=rc5::RC5::encrypt_block,rc5::RC5::decrypt_block timeout=300 note="RC5-8/255/4"
+// @ob name=r255_8_255_4_rt2 props=C01 kind=contract fn=rc5::RC5::encrypt_block,rc5::RC5::decrypt_block timeout=300 note="RC5-8/255/4"
+// @ob name=r255_8_255_4_api_enc props=C10,C20 kind=contract uses=c_word_u8,c_word_u16,c_word_u32,c_word_u64,c_word_u128 fn=rc5::RC5::new,rc5::RC5::encrypt_block timeout=300 note="RC5-8/255/4"
+// @ob name=r255_8_255_4_api_dec props=C10,C20 kind=contract uses=c_word_u8,c_word_u16,c_word_u32,c_word_u64,c_word_u128 fn=rc5::RC5::new,rc5::RC5::decrypt_block timeout=300 note="RC5-8/255/4"
+rc5_inst!(u8, U255, U4, m=w8, o=orc8, u=1, t=512, c=4, b=4, unw=1538;
+    r255_8_255_4_ks, r255_8_255_4_enc, r255_8_255_4_dec, r255_8_255_4_rt1, r255_8_255_4_rt2, r255_8_255_4_api_enc, r255_8_255_4_api_dec);
 // RC5-32/12/1: RC5<u32, U12, U1>  (t = 26, c = 1)
-// @ob name=b1_32_12_1_ks props=C10,C20 kind=contract fn=rc5::RC5::substitute_key,rc5::RC5::key_into_words,rc5::RC5::initialize_expanded_key_table,rc5::RC5::mix_in timeout=300 note="RC5-32/12/1"
+// @ob name=b1_32_12_1_ks props=C10,C20 kind=contract uses=c_word_u8,c_word_u16,c_word_u32,c_word_u64,c_word_u128 fn=rc5::RC5::substitute_key,rc5::RC5::key_into_words,rc5::RC5::initialize_expanded_key_table,rc5::RC5::mix_in timeout=300 note="RC5-32/12/1"
 // @ob name=b1_32_12_1_enc props=C10,C20 kind=contract fn=rc5::RC5::encrypt_block,rc5::RC5::words_from_block,rc5::RC5::block_from_words timeout=300 note="RC5-32/12/1"
 // @ob name=b1_32_12_1_dec props=C10,C20 kind=contract fn=rc5::RC5::decrypt_block,rc5::RC5::words_from_block,rc5::RC5::block_from_words timeout=300 note="RC5-32/12/1"
 // @ob name=b1_32_12_1_rt1 props=C01 kind=contract fn=rc5::RC5::encrypt_block,rc5::RC5::decrypt_block timeout=300 note="RC5-32/12/1"
 // @ob name=b1_32_12_1_rt2 props=C01 kind=contract fn=rc5::RC5::encrypt_block,rc5::RC5::decrypt_block timeout=300 note="RC5-32/12/1"
-// @ob name=b1_32_12_1_api_enc props=C10,C20 kind=contract fn=rc5::RC5::new,rc5::RC5::encrypt_block timeout=300 note="RC5-32/12/1"
-// @ob name=b1_32_12_1_api_dec props=C10,C20 kind=contract fn=rc5::RC5::new,rc5::RC5::decrypt_block timeout=300 note="RC5-32/12/1"
-rc5_inst!(u32, U12, U1, m=w32, u=4, t=26, c=1, b=1, unw=80;
+// @ob name=b1_32_12_1_api_enc props=C10,C20 kind=contract uses=c_word_u8,c_word_u16,c_word_u32,c_word_u64,c_word_u128 fn=rc5::RC5::new,rc5::RC5::encrypt_block timeout=300 note="RC5-32/12/1"
+// @ob name=b1_32_12_1_api_dec props=C10,C20 kind=contract uses=c_word_u8,c_word_u16,c_word_u32,c_word_u64,c_word_u128 fn=rc5::RC5::new,rc5::RC5::decrypt_block timeout=300 note="RC5-32/12/1"
+rc5_inst!(u32, U12, U1, m=w32, o=orc32, u=4, t=26, c=1, b=1, unw=80;
     b1_32_12_1_ks, b1_32_12_1_enc, b1_32_12_1_dec, b1_32_12_1_rt1, b1_32_12_1_rt2, b1_32_12_1_api_enc, b1_32_12_1_api_dec);
 // RC5-32/12/3: RC5<u32, U12, U3>  (t = 26, c = 1)
-// @ob name=b3_32_12_3_ks props=C10,C20 kind=contract fn=rc5::RC5::substitute_key,rc5::RC5::key_into_words,rc5::RC5::initialize_expanded_key_table,rc5::RC5::mix_in timeout=300 note="RC5-32/12/3"
+// @ob name=b3_32_12_3_ks props=C10,C20 kind=contract uses=c_word_u8,c_word_u16,c_word_u32,c_word_u64,c_word_u128 fn=rc5::RC5::substitute_key,rc5::RC5::key_into_words,rc5::RC5::initialize_expanded_key_table,rc5::RC5::mix_in timeout=300 note="RC5-32/12/3"
 // @ob name=b3_32_12_3_enc props=C10,C20 kind=contract fn=rc5::RC5::encrypt_block,rc5::RC5::words_from_block,rc5::RC5::block_from_words timeout=300 note="RC5-32/12/3"
 // @ob name=b3_32_12_3_dec props=C10,C20 kind=contract fn=rc5::RC5::decrypt_block,rc5::RC5::words_from_block,rc5::RC5::block_from_words timeout=300 note="RC5-32/12/3"
 // @ob name=b3_32_12_3_rt1 props=C01 kind=contract fn=rc5::RC5::encrypt_block,rc5::RC5::decrypt_block timeout=300 note="RC5-32/12/3"
 // @ob name=b3_32_12_3_rt2 props=C01 kind=contract fn=rc5::RC5::encrypt_block,rc5::RC5::decrypt_block timeout=300 note="RC5-32/12/3"
-// @ob name=b3_32_12_3_api_enc props=C10,C20 kind=contract fn=rc5::RC5::new,rc5::RC5::encrypt_block timeout=300 note="RC5-32/12/3"
-// @ob name=b3_32_12_3_api_dec props=C10,C20 kind=contract fn=rc5::RC5::new,rc5::RC5::decrypt_block timeout=300 note="RC5-32/12/3"
-rc5_inst!(u32, U12, U3, m=w32, u=4, t=26, c=1, b=3, unw=80;
+// @ob name=b3_32_12_3_api_enc props=C10,C20 kind=contract uses=c_word_u8,c_word_u16,c_word_u32,c_word_u64,c_word_u128 fn=rc5::RC5::new,rc5::RC5::encrypt_block timeout=300 note="RC5-32/12/3"
+// @ob name=b3_32_12_3_api_dec props=C10,C20 kind=contract uses=c_word_u8,c_word_u16,c_word_u32,c_word_u64,c_word_u128 fn=rc5::RC5::new,rc5::RC5::decrypt_block timeout=300 note="RC5-32/12/3"
+rc5_inst!(u32, U12, U3, m=w32, o=orc32, u=4, t=26, c=1, b=3, unw=80;
     b3_32_12_3_ks, b3_32_12_3_enc, b3_32_12_3_dec, b3_32_12_3_rt1, b3_32_12_3_rt2, b3_32_12_3_api_enc, b3_32_12_3_api_dec);
 // RC5-32/12/7: RC5<u32, U12, U7>  (t = 26, c = 2)
-// @ob name=b7_32_12_7_ks props=C10,C20 kind=contract fn=rc5::RC5::substitute_key,rc5::RC5::key_into_words,rc5::RC5::initialize_expanded_key_table,rc5::RC5::mix_in timeout=300 note="RC5-32/12/7"
+// @ob name=b7_32_12_7_ks props=C10,C20 kind=contract uses=c_word_u8,c_word_u16,c_word_u32,c_word_u64,c_word_u128 fn=rc5::RC5::substitute_key,rc5::RC5::key_into_words,rc5::RC5::initialize_expanded_key_table,rc5::RC5::mix_in timeout=300 note="RC5-32/12/7"
 // @ob name=b7_32_12_7_enc props=C10,C20 kind=contract fn=rc5::RC5::encrypt_block,rc5::RC5::words_from_block,rc5::RC5::block_from_words timeout=300 note="RC5-32/12/7"
 // @ob name=b7_32_12_7_dec props=C10,C20 kind=contract fn=rc5::RC5::decrypt_block,rc5::RC5::words_from_block,rc5::RC5::block_from_words timeout=300 note="RC5-32/12/7"
 // @ob name=b7_32_12_7_rt1 props=C01 kind=contract fn=rc5::RC5::encrypt_block,rc5::RC5::decrypt_block timeout=300 note="RC5-32/12/7"
 // @ob name=b7_32_12_7_rt2 props=C01 kind=contract fn=rc5::RC5::encrypt_block,rc5::RC5::decrypt_block timeout=300 note="RC5-32/12/7"
-// @ob name=b7_32_12_7_api_enc props=C10,C20 kind=contract fn=rc5::RC5::new,rc5::RC5::encrypt_block timeout=300 note="RC5-32/12/7"
-// @ob name=b7_32_12_7_api_dec props=C10,C20 kind=contract fn=rc5::RC5::new,rc5::RC5::decrypt_block timeout=300 note="RC5-32/12/7"
-rc5_inst!(u32, U12, U7, m=w32, u=4, t=26, c=2, b=7, unw=80;
+// @ob name=b7_32_12_7_api_enc props=C10,C20 kind=contract uses=c_word_u8,c_word_u16,c_word_u32,c_word_u64,c_word_u128 fn=rc5::RC5::new,rc5::RC5::encrypt_block timeout=300 note="RC5-32/12/7"
+// @ob name=b7_32_12_7_api_dec props=C10,C20 kind=contract uses=c_word_u8,c_word_u16,c_word_u32,c_word_u64,c_word_u128 fn=rc5::RC5::new,rc5::RC5::decrypt_block timeout=300 note="RC5-32/12/7"
+rc5_inst!(u32, U12, U7, m=w32, o=orc32, u=4, t=26, c=2, b=7, unw=80;
     b7_32_12_7_ks, b7_32_12_7_enc, b7_32_12_7_dec, b7_32_12_7_rt1, b7_32_12_7_rt2, b7_32_12_7_api_enc, b7_32_12_7_api_dec);
 // RC5-32/12/255: RC5<u32, U12, U255>  (t = 26, c = 64)
-// @ob name=b255_32_12_255_ks props=C10,C20 kind=contract fn=rc5::RC5::substitute_key,rc5::RC5::key_into_words,rc5::RC5::initialize_expanded_key_table,rc5::RC5::mix_in timeout=300 note="RC5-32/12/255"
+// @ob name=b255_32_12_255_ks props=C10,C20 kind=contract uses=c_word_u8,c_word_u16,c_word_u32,c_word_u64,c_word_u128 fn=rc5::RC5::substitute_key,rc5::RC5::key_into_words,rc5::RC5::initialize_expanded_key_table,rc5::RC5::mix_in timeout=300 note="RC5-32/12/255"
 // @ob name=b255_32_12_255_enc props=C10,C20 kind=contract fn=rc5::RC5::encrypt_block,rc5::RC5::words_from_block,rc5::RC5::block_from_words timeout=300 note="RC5-32/12/255"
 // @ob name=b255_32_12_255_dec props=C10,C20 kind=contract fn=rc5::RC5::decrypt_block,rc5::RC5::words_from_block,rc5::RC5::block_from_words timeout=300 note="RC5-32/12/255"
 // @ob name=b255_32_12_255_rt1 props=C01 kind=contract fn=rc5::RC5::encrypt_block,rc5::RC5::decrypt_block timeout=300 note="RC5-32/12/255"
 // @ob name=b255_32_12_255_rt2 props=C01 kind=contract fn=rc5::RC5::encrypt_block,rc5::RC5::decrypt_block timeout=300 note="RC5-32/12/255"
-// @ob name=b255_32_12_255_api_enc props=C10,C20 kind=contract fn=rc5::RC5::new,rc5::RC5::encrypt_block timeout=300 note="RC5-32/12/255"
-// @ob name=b255_32_12_255_api_dec props=C10,C20 kind=contract fn=rc5::RC5::new,rc5::RC5::decrypt_block timeout=300 note="RC5-32/12/255"
-rc5_inst!(u32, U12, U255, m=w32, u=4, t=26, c=64, b=255, unw=257;
+// @ob name=b255_32_12_255_api_enc props=C10,C20 kind=contract uses=c_word_u8,c_word_u16,c_word_u32,c_word_u64,c_word_u128 fn=rc5::RC5::new,rc5::RC5::encrypt_block timeout=300 note="RC5-32/12/255"
+// @ob name=b255_32_12_255_api_dec props=C10,C20 kind=contract uses=c_word_u8,c_word_u16,c_word_u32,c_word_u64,c_word_u128 fn=rc5::RC5::new,rc5::RC5::decrypt_block timeout=300 note="RC5-32/12/255"
+rc5_inst!(u32, U12, U255, m=w32, o=orc32, u=4, t=26, c=64, b=255, unw=257;
     b255_32_12_255_ks, b255_32_12_255_enc, b255_32_12_255_dec, b255_32_12_255_rt1, b255_32_12_255_rt2, b255_32_12_255_api_enc, b255_32_12_255_api_dec);
 // RC5-16/12/3: RC5<u16, U12, U3>  (t = 26, c = 2)
-// @ob name=n16_12_3_ks props=C10,C20 kind=contract fn=rc5::RC5::substitute_key,rc5::RC5::key_into_words,rc5::RC5::initialize_expanded_key_table,rc5::RC5::mix_in timeout=300 note="RC5-16/12/3"
+// @ob name=n16_12_3_ks props=C10,C20 kind=contract uses=c_word_u8,c_word_u16,c_word_u32,c_word_u64,c_word_u128 fn=rc5::RC5::substitute_key,rc5::RC5::key_into_words,rc5::RC5::initialize_expanded_key_table,rc5::RC5::mix_in timeout=300 note="RC5-16/12/3"
 // @ob name=n16_12_3_enc props=C10,C20 kind=contract fn=rc5::RC5::encrypt_block,rc5::RC5::words_from_block,rc5::RC5::block_from_words timeout=300 note="RC5-16/12/3"
 // @ob name=n16_12_3_dec props=C10,C20 kind=contract fn=rc5::RC5::decrypt_block,rc5::RC5::words_from_block,rc5::RC5::block_from_words timeout=300 note="RC5-16/12/3"
 // @ob name=n16_12_3_rt1 props=C01 kind=contract fn=rc5::RC5::encrypt_block,rc5::RC5::decrypt_block timeout=300 note="RC5-16/12/3"
 // @ob name=n16_12_3_rt2 props=C01 kind=contract fn=rc5::RC5::encrypt_block,rc5::RC5::decrypt_block timeout=300 note="RC5-16/12/3"
-// @ob name=n16_12_3_api_enc props=C10,C20 kind=contract fn=rc5::RC5::new,rc5::RC5::encrypt_block timeout=300 note="RC5-16/12/3"
-// @ob name=n16_12_3_api_dec props=C10,C20 kind=contract fn=rc5::RC5::new,rc5::RC5::decrypt_block timeout=300 note="RC5-16/12/3"
-rc5_inst!(u16, U12, U3, m=w16, u=2, t=26, c=2, b=3, unw=80;
+// @ob name=n16_12_3_api_enc props=C10,C20 kind=contract uses=c_word_u8,c_word_u16,c_word_u32,c_word_u64,c_word_u128 fn=rc5::RC5::new,rc5::RC5::encrypt_block timeout=300 note="RC5-16/12/3"
+// @ob name=n16_12_3_api_dec props=C10,C20 kind=contract uses=c_word_u8,c_word_u16,c_word_u32,c_word_u64,c_word_u128 fn=rc5::RC5::new,rc5::RC5::decrypt_block timeout=300 note="RC5-16/12/3"
+rc5_inst!(u16, U12, U3, m=w16, o=orc16, u=2, t=26, c=2, b=3, unw=80;
     n16_12_3_ks, n16_12_3_enc, n16_12_3_dec, n16_12_3_rt1, n16_12_3_rt2, n16_12_3_api_enc, n16_12_3_api_dec);
 // RC5-64/12/9: RC5<u64, U12, U9>  (t = 26, c = 2)
-// @ob name=n64_12_9_ks props=C10,C20 kind=contract fn=rc5::RC5::substitute_key,rc5::RC5::key_into_words,rc5::RC5::initialize_expanded_key_table,rc5::RC5::mix_in timeout=300 note="RC5-64/12/9"
+// @ob name=n64_12_9_ks props=C10,C20 kind=contract uses=c_word_u8,c_word_u16,c_word_u32,c_word_u64,c_word_u128 fn=rc5::RC5::substitute_key,rc5::RC5::key_into_words,rc5::RC5::initialize_expanded_key_table,rc5::RC5::mix_in timeout=300 note="RC5-64/12/9"
 // @ob name=n64_12_9_enc props=C10,C20 kind=contract fn=rc5::RC5::encrypt_block,rc5::RC5::words_from_block,rc5::RC5::block_from_words timeout=300 note="RC5-64/12/9"
 // @ob name=n64_12_9_dec props=C10,C20 kind=contract fn=rc5::RC5::decrypt_block,rc5::RC5::words_from_block,rc5::RC5::block_from_words timeout=300 note="RC5-64/12/9"
 // @ob name=n64_12_9_rt1 props=C01 kind=contract fn=rc5::RC5::encrypt_block,rc5::RC5::decrypt_block timeout=300 note="RC5-64/12/9"
 // @ob name=n64_12_9_rt2 props=C01 kind=contract fn=rc5::RC5::encrypt_block,rc5::RC5::decrypt_block timeout=300 note="RC5-64/12/9"
-// @ob name=n64_12_9_api_enc props=C10,C20 kind=contract fn=rc5::RC5::new,rc5::RC5::encrypt_block timeout=300 note="RC5-64/12/9"
-// @ob name=n64_12_9_api_dec props=C10,C20 kind=contract fn=rc5::RC5::new,rc5::RC5::decrypt_block timeout=300 note="RC5-64/12/9"
-rc5_inst!(u64, U12, U9, m=w64, u=8, t=26, c=2, b=9, unw=80;
+// @ob name=n64_12_9_api_enc props=C10,C20 kind=contract uses=c_word_u8,c_word_u16,c_word_u32,c_word_u64,c_word_u128 fn=rc5::RC5::new,rc5::RC5::encrypt_block timeout=300 note="RC5-64/12/9"
+// @ob name=n64_12_9_api_dec props=C10,C20 kind=contract uses=c_word_u8,c_word_u16,c_word_u32,c_word_u64,c_word_u128 fn=rc5::RC5::new,rc5::RC5::decrypt_block timeout=300 note="RC5-64/12/9"
+rc5_inst!(u64, U12, U9, m=w64, o=orc64, u=8, t=26, c=2, b=9, unw=80;
     n64_12_9_ks, n64_12_9_enc, n64_12_9_dec, n64_12_9_rt1, n64_12_9_rt2, n64_12_9_api_enc, n64_12_9_api_dec);
 // RC5-128/12/17: RC5<u128, U12, U17>  (t = 26, c = 2)
-// @ob name=n128_12_17_ks props=C10,C20 kind=contract fn=rc5::RC5::substitute_key,rc5::RC5::key_into_words,rc5::RC5::initialize_expanded_key_table,rc5::RC5::mix_in timeout=300 note="RC5-128/12/17"
+// @ob name=n128_12_17_ks props=C10,C20 kind=contract uses=c_word_u8,c_word_u16,c_word_u32,c_word_u64,c_word_u128 fn=rc5::RC5::substitute_key,rc5::RC5::key_into_words,rc5::RC5::initialize_expanded_key_table,rc5::RC5::mix_in timeout=300 note="RC5-128/12/17"
 // @ob name=n128_12_17_enc props=C10,C20 kind=contract fn=rc5::RC5::encrypt_block,rc5::RC5::words_from_block,rc5::RC5::block_from_words timeout=300 note="RC5-128/12/17"
 // @ob name=n128_12_17_dec props=C10,C20 kind=contract fn=rc5::RC5::decrypt_block,rc5::RC5::words_from_block,rc5::RC5::block_from_words timeout=300 note="RC5-128/12/17"
 // @ob name=n128_12_17_rt1 props=C01 kind=contract fn=rc5::RC5::encrypt_block,rc5::RC5::decrypt_block timeout=300 note="RC5-128/12/17"
 // @ob name=n128_12_17_rt2 props=C01 kind=contract fn=rc5::RC5::encrypt_block,rc5::RC5::decrypt_block timeout=300 note="RC5-128/12/17"
-// @ob name=n128_12_17_api_enc props=C10,C20 kind=contract fn=rc5::RC5::new,rc5::RC5::encrypt_block timeout=300 note="RC5-128/12/17"
-// @ob name=n128_12_17_api_dec props=C10,C20 kind=contract fn=rc5::RC5::new,rc5::RC5::decrypt_block timeout=300 note="RC5-128/12/17"
-rc5_inst!(u128, U12, U17, m=w128, u=16, t=26, c=2, b=17, unw=80;
+// @ob name=n128_12_17_api_enc props=C10,C20 kind=contract uses=c_word_u8,c_word_u16,c_word_u32,c_word_u64,c_word_u128 fn=rc5::RC5::new,rc5::RC5::encrypt_block timeout=300 note="RC5-128/12/17"
+// @ob name=n128_12_17_api_dec props=C10,C20 kind=contract uses=c_word_u8,c_word_u16,c_word_u32,c_word_u64,c_word_u128 fn=rc5::RC5::new,rc5::RC5::decrypt_block timeout=300 note="RC5-128/12/17"
+rc5_inst!(u128, U12, U17, m=w128, o=orc128, u=16, t=26, c=2, b=17, unw=80;
     n128_12_17_ks, n128_12_17_enc, n128_12_17_dec, n128_12_17_rt1, n128_12_17_rt2, n128_12_17_api_enc, n128_12_17_api_dec);
 // RC5-8/12/255: RC5<u8, U12, U255>  (t = 26, c = 255)
-// @ob name=b255_8_12_255_ks props=C10,C20 kind=contract fn=rc5::RC5::substitute_key,rc5::RC5::key_into_words,rc5::RC5::initialize_expanded_key_table,rc5::RC5::mix_in timeout=300 note="RC5-8/12/255"
+// @ob name=b255_8_12_255_ks props=C10,C20 kind=contract uses=c_word_u8,c_word_u16,c_word_u32,c_word_u64,c_word_u128 fn=rc5::RC5::substitute_key,rc5::RC5::key_into_words,rc5::RC5::initialize_expanded_key_table,rc5::RC5::mix_in timeout=300 note="RC5-8/12/255"
 // @ob name=b255_8_12_255_enc props=C10,C20 kind=contract fn=rc5::RC5::encrypt_block,rc5::RC5::words_from_block,rc5::RC5::block_from_words timeout=300 note="RC5-8/12/255"
 // @ob name=b255_8_12_255_dec props=C10,C20 kind=contract fn=rc5::RC5::decrypt_block,rc5::RC5::words_from_block,rc5::RC5::block_from_words timeout=300 note="RC5-8/12/255"
 // @ob name=b255_8_12_255_rt1 props=C01 kind=contract fn=rc5::RC5::encrypt_block,rc5::RC5::decrypt_block timeout=300 note="RC5-8/12/255"
 // @ob name=b255_8_12_255_rt2 props=C01 kind=contract fn=rc5::RC5::encrypt_block,rc5::RC5::decrypt_block timeout=300 note="RC5-8/12/255"
-// @ob name=b255_8_12_255_api_enc props=C10,C20 kind=contract fn=rc5::RC5::new,rc5::RC5::encrypt_block timeout=300 note="RC5-8/12/255"
-// @ob name=b255_8_12_255_api_dec props=C10,C20 kind=contract fn=rc5::RC5::new,rc5::RC5::decrypt_block timeout=300 note="RC5-8/12/255"
-rc5_inst!(u8, U12, U255, m=w8, u=1, t=26, c=255, b=255, unw=767;
+// @ob name=b255_8_12_255_api_enc props=C10,C20 kind=contract uses=c_word_u8,c_word_u16,c_word_u32,c_word_u64,c_word_u128 fn=rc5::RC5::new,rc5::RC5::encrypt_block timeout=300 note="RC5-8/12/255"
+// @ob name=b255_8_12_255_api_dec props=C10,C20 kind=contract uses=c_word_u8,c_word_u16,c_word_u32,c_word_u64,c_word_u128 fn=rc5::RC5::new,rc5::RC5::decrypt_block timeout=300 note="RC5-8/12/255"
+rc5_inst!(u8, U12, U255, m=w8, o=orc8, u=1, t=26, c=255, b=255, unw=767;
     b255_8_12_255_ks, b255_8_12_255_enc, b255_8_12_255_dec, b255_8_12_255_rt1, b255_8_12_255_rt2, b255_8_12_255_api_enc, b255_8_12_255_api_dec);
 
 // ---------------------------------------------------------------- key length 0 (C10): accepted by the type, RC5 prescribes c = max(1, ceil(8b/w)) = 1
